@@ -44,7 +44,14 @@ extern "C" void h_tree() {
     if (use_timeout) root.setTimeout(std::chrono::milliseconds(500));      // a timeout on the root (its timer is a fake the harness can fire)
     VP_ASSERT(root.start(), "root starts");
     // loop passes; late leaves complete on a symbolic pass; one control call (none / stop / pause+resume / reset) at a symbolic pass
-    unsigned ctl = nondet_uchar(); VP_ASSUME(ctl <= 3); unsigned ctl_at = nondet_uchar(); VP_ASSUME(ctl_at <= 2);
+    // ctl 4/5: pause AFTER this pass's completions were emitted (so a child's finish notification reaches a paused composite and is parked);
+    //          one pass later: resume (5) or resume-pause-resume back to back (4)
+#ifdef CTL
+    unsigned ctl = CTL;                                               // one solver run per control script
+#else
+    unsigned ctl = nondet_uchar(); VP_ASSUME(ctl <= 5);
+#endif
+    unsigned ctl_at = nondet_uchar(); VP_ASSUME(ctl_at <= 2);
     bool stopped = false, was_reset = false; int finish_at_stop = 0;
     for (unsigned pass = 0; pass < 4; pass++) {
         if (pass == ctl_at) {
@@ -52,7 +59,12 @@ extern "C" void h_tree() {
             else if (ctl == 2) { if (root.pause()) root.resume(); }
             else if (ctl == 3) { root.reset(); was_reset = true; finish_at_stop = root_finish; }
         }
+        if (pass == ctl_at + 1 && ctl >= 4 && root.state() == Action::State::kPause) {
+            root.resume();
+            if (ctl == 4) { if (root.pause()) root.resume(); }
+        }
         for (int i = 0; i < NL; i++) if (!inline_done[i] && leaf[i]->state() == Action::State::kRunning) { inline_done[i] = true; deliver(i); inline_done[i] = false; if (outc[i] != O_BLOCK) outc[i] = outc[i]; }
+        if (pass == ctl_at && ctl >= 4) root.pause();
         for (int k = 0; k < 8 && !loop.next_q.empty(); k++) loop.pass();
     }
     for (int i = 0; i < NL; i++) VP_ASSERT(starts[i] <= 1 || was_reset, "no child is started again while a previous run of it is under way / after it finished in the same run");
@@ -61,7 +73,8 @@ extern "C" void h_tree() {
         for (size_t t = 0; t < loop.timers.size(); t++) if (loop.timers[t]->on) loop.timers[t]->fire();
         for (int k = 0; k < 8 && !loop.next_q.empty(); k++) loop.pass();
         VP_ASSERT(root_finish == finish_at_stop, "a stopped or reset action never delivers a stale finish notification");
-        if (was_reset) VP_ASSERT(root.state() == Action::State::kIdle, "a reset tree is idle like a freshly built one");
+        if (was_reset) { VP_ASSERT(root.state() == Action::State::kIdle, "a reset tree is idle like a freshly built one");
+            for (int i = 0; i < NL; i++) VP_ASSERT(leaf[i]->state() == Action::State::kIdle, "reset reaches every descendant: each is idle like a freshly built one"); }
         for (int i = 0; i < NL; i++) VP_ASSERT(!leaf[i]->isUnderway(), "after stop / reset no descendant is left running or paused");
         VP_ASSERT(!root.isUnderway(), "root is not under way after stop / reset");
     } else if (root.state() == Action::State::kFinished) {
@@ -80,6 +93,20 @@ extern "C" void h_tree() {
         VP_ASSERT(root_finish == 0, "no finish notification while the root has not finished");
     }
     if (root.isUnderway()) root.stop();
+    // second life: reset, then run again with every leaf succeeding inside its start hook - must behave like a freshly built tree
+    root.reset();
+    VP_ASSERT(root.state() == Action::State::kIdle, "a reset tree is idle like a freshly built one");
+    for (int i = 0; i < NL; i++) { VP_ASSERT(leaf[i]->state() == Action::State::kIdle, "reset reaches every descendant: each is idle like a freshly built one"); starts[i] = 0; outc[i] = O_SUCC; inline_done[i] = true; }
+    for (int k = 0; k < 8 && !loop.next_q.empty(); k++) loop.pass();
+    root_finish = 0; root_result = -1;
+    VP_ASSERT(root.start(), "a reset tree starts again");
+    for (int k = 0; k < 16 && !loop.next_q.empty(); k++) loop.pass();
+    VP_ASSERT(root.state() == Action::State::kFinished && root_finish == 1 && root_result == 1, "the second run of a reset tree finishes exactly once, successfully when every leaf succeeds");
+#if KIND == 0
+    for (int i = 0; i < NL; i++) VP_ASSERT(starts[i] == ((mode == 2 && i > 0) ? 0 : 1), "the second run starts the children a fresh tree would start, once each");
+#else
+    for (int i = 0; i < NL; i++) VP_ASSERT(starts[i] == 1 || (mode == 2 && starts[i] <= 1), "the second run starts every child at most once (all of them unless the first success already decides)");
+#endif
     VP_REACH("tree");
     for (int i = 0; i < NL; i++) { /* children are owned (deleted) by the root */ }
 }
